@@ -248,7 +248,7 @@ class Lowerer:
     def sig_suffix(self, f):
         ps = [p for p in f.get('inner', []) if p.get('kind') == 'ParmVarDecl']
         if not ps: return 'void'
-        return '_'.join(ct(p).name + ('P' * ct(p).suf.count('*')) for p in ps)
+        return '_'.join(ct(p).name.replace(' ', '') + ('P' * ct(p).suf.count('*')) for p in ps)
     OPS = {'operator=': 'assign', 'operator==': 'eq', 'operator!=': 'ne', 'operator<': 'lt', 'operator>': 'gt',
            'operator<=': 'le', 'operator>=': 'ge', 'operator+': 'plus', 'operator-': 'minus', 'operator*': 'deref',
            'operator->': 'arrow', 'operator!': 'not', 'operator++': 'inc', 'operator--': 'dec', 'operator<<': 'shl',
@@ -366,6 +366,9 @@ class Lowerer:
             return '((%s)0)' % self.ctype_decl(t)
         if ck == 'BitCast':
             t = ct(n)
+            if t.name == 'cstr' and not t.suf.count('*'):
+                self.rule('reinterpret_cast to const char* -> cstr_from_ptr')
+                return 'cstr_from_ptr((const void *)(%s), sizeof(*(%s)))' % (self.e(sub), self.e(sub))
             return '((%s)(%s))' % (self.ctype_decl(t), self.e(sub))
         if ck == 'ToVoid':
             return '((void)(%s))' % self.e(sub)
@@ -384,7 +387,10 @@ class Lowerer:
         if t == 'unsigned long long': return v + 'ull'
         return v
     def e_FloatingLiteral(self, n): return str(n['value'])
-    def e_CharacterLiteral(self, n): return str(n['value'])
+    def e_CharacterLiteral(self, n):
+        v = int(n['value']); t = ct(n).name
+        if t == 'char' and v >= 2**31: v -= 2**32          # clang prints '\x8b' as 4294967179; plain char is signed here
+        return str(v)
     def e_CXXNullPtrLiteralExpr(self, n): return '0'
     def e_GNUNullExpr(self, n): return '0'
     def e_StringLiteral(self, n):
@@ -529,7 +535,7 @@ class Lowerer:
         parts = []
         for a in args:
             t = ct(a)
-            parts.append(t.name + 'P' * t.suf.count('*'))
+            parts.append(t.name.replace(' ', '') + 'P' * t.suf.count('*'))
         return '_'.join(parts) if parts else ''
 
     def call_result(self, n, callstr):
@@ -635,6 +641,8 @@ class Lowerer:
                     return self.e(args[0])
                 if qn == 'std_find_if':
                     return self.find_if(n, args)
+                if qn in ('std_sort', 'std_stable_sort') and len(args) == 3:
+                    return self.std_sort(n, args, qn)
                 args = self.drop_defaults(args)
                 suffix = self.argsuffix(args)
                 cname = '%s%s' % (qn, ('__' + suffix) if suffix else '')
@@ -655,7 +663,11 @@ class Lowerer:
         txt = source_text(c)
         if txt:
             txt = re.sub(r'\s+', '', txt)
+            targs = re.search(r'<(.*)>$', txt)
             txt = re.sub(r'<.*>$', '', txt)     # explicit template arguments of the call
+            if targs and txt.split('::')[-1] in ('qobject_cast', 'dynamic_cast', 'static_cast', 'qSharedPointerCast', 'qSharedPointerDynamicCast', 'qSharedPointerObjectCast'):
+                # casts: the target type is part of the model function's name
+                return mangle_core(txt) + '_' + mangle_core(targs.group(1).replace('*', ' *')).replace(' ', '')
             if re.fullmatch(r'(::)?[A-Za-z_][A-Za-z0-9_]*(<[^()]*>)?(::[A-Za-z_][A-Za-z0-9_]*(<[^()]*>)?)*', txt) and txt.split('::')[-1].split('<')[0] == name.split('<')[0]:
                 q = txt.lstrip(':')
                 if '::' in q:
@@ -839,7 +851,23 @@ class Lowerer:
     def e_LambdaExpr(self, n):
         raise Unsupported('lambda expression in this position (line %s)' % src_line(n))
     def e_CXXNewExpr(self, n):
-        raise Unsupported('new expression (line %s)' % src_line(n))
+        if n.get('isArray') or n.get('isPlacement'):
+            raise Unsupported('array/placement new (line %s)' % src_line(n))
+        t = ct(n)                                  # pointer type
+        obj = CType(t.core_cxx)
+        ctor = [c for c in n.get('inner', []) if c.get('kind') in ('CXXConstructExpr',)]
+        if self.is_repo_class(obj):
+            if not ctor: raise Unsupported('new of a repo class without constructor call (line %s)' % src_line(n))
+            self.rule('new T(args) of a repo class -> malloc + constructor')
+            rq = self.rec_for(obj)
+            if rq: self.need_struct(rq)
+            return '({ %s *_n = (%s *)malloc(sizeof(%s)); %s; _n; })' % (obj.name, obj.name, obj.name, self.ctor_call(obj, '_n', ctor[0]))
+        args = self.drop_defaults(ctor[0].get('inner', [])) if ctor else []
+        suffix = self.argsuffix(args)
+        cname = '%s_new%s' % (obj.name, ('__' + suffix) if suffix else '')
+        self.note_extern(cname, n)
+        self.rule('new T(args) of an external class -> model')
+        return '%s(%s)' % (cname, ', '.join(self.arg(a) for a in args))
 
     # ---- std::find_if
     def find_if(self, n, args):
@@ -869,6 +897,37 @@ class Lowerer:
             info.is_find_if = True
             self.fns[fname] = info
         self.rule('std::find_if -> canonical loop with reachable-range precondition')
+        capargs = [c[2] for c in caps]
+        return '%s(%s)' % (fname, ', '.join([self.e(first), self.e(last)] + capargs))
+
+    # ---- std::sort with a comparator lambda
+    def std_sort(self, n, args, qn):
+        """std::sort(first,last,cmp) -> generated function: the model picks an arbitrary (ghost) pair of elements of
+        the range, the REAL comparator is evaluated on it in both orders, and the model's SORT_END states the
+        obligation (comparator adequate for the order the caller relies on) and the effect (range sorted)."""
+        first, last, lam = args
+        l = lam
+        while l['kind'] != 'LambdaExpr':
+            if not l.get('inner'): raise Unsupported('std::sort comparator is not a lambda')
+            l = l['inner'][0]
+        lname, caps = self.lower_lambda(l)
+        it = ct(first)
+        fname = 'sort_%s' % lname
+        self.cur.callees.add(fname)
+        if fname not in self.fns:
+            capdecl = ''.join(', ' + c[1] for c in caps)
+            capuse = ''.join(c[0] + ', ' for c in caps)
+            info = FnInfo(fname, n, self.cur.qname + '::<%s #%s>' % (qn.replace('_', '::'), lname.rsplit('_', 1)[-1]))
+            info.line = src_line(n); info.file = self.cur.file
+            info.callees = {lname}
+            info.rules = {'std::sort -> comparator evaluated on a ghost pair + sort model': 1}
+            info.proto = 'static void %s(%s first, %s last%s)' % (fname, it.name, it.name, capdecl)
+            info.text = (info.proto + '\n{\n    SORT_BEGIN(%s, first, last);\n'
+                         '    BOOL _ab = %s(%s_sort_a, _sort_b);\n    BOOL _ba = %s(%s_sort_b, _sort_a);\n    BOOL _aa = %s(%s_sort_a, _sort_a);\n'
+                         '    SORT_END(%s, first, last, _ab, _ba, _aa);\n}\n' % (it.name, lname, capuse, lname, capuse, lname, capuse, it.name))
+            info.is_find_if = True
+            self.fns[fname] = info
+        self.rule('std::sort -> sort model with comparator obligation')
         capargs = [c[2] for c in caps]
         return '%s(%s)' % (fname, ', '.join([self.e(first), self.e(last)] + capargs))
 
@@ -958,9 +1017,30 @@ class Lowerer:
     def s2(self, n, ind, m):
         if m: return m(n, ind)
         # expression statement
+        if ct(n).name.startswith('std_basic_ostream') or ct(n).name.startswith('basic_ostream'):
+            if self.has_side_effects(n):
+                raise Unsupported('stream output statement with side effects in its operands (line %s)' % src_line(n))
+            self.rule('std::cerr/cout diagnostic statement dropped')
+            return ind + ';   /* diagnostic stream output dropped */\n'
         mark = len(self.temps)
         x = self.e(n)
         return self.with_temps(mark, ind, ind + x + ';\n')
+
+    def has_side_effects(self, n):
+        k = n.get('kind')
+        if k in ('CompoundAssignOperator', 'CXXNewExpr', 'CXXDeleteExpr'): return True
+        if k == 'BinaryOperator' and n.get('opcode') == '=': return True
+        if k == 'UnaryOperator' and n.get('opcode') in ('++', '--'): return True
+        if k in ('CXXMemberCallExpr', 'CallExpr'):
+            callee = n['inner'][0]
+            while callee.get('kind') in ('ImplicitCastExpr', 'ParenExpr'): callee = callee['inner'][0]
+            mid = callee.get('referencedMemberDecl') or (callee.get('referencedDecl') or {}).get('id')
+            f = self.ix.fn_by_id.get(mid)
+            if f is not None and not self.is_const_method(f): return True
+            if f is None and k == 'CXXMemberCallExpr' and callee.get('kind') == 'MemberExpr':
+                base = callee['inner'][0]
+                if not (is_const(nodetype(base)[0]) or callee.get('name') in PURE_EXTERN_METHODS): return True
+        return any(self.has_side_effects(c) for c in n.get('inner', []) if isinstance(c, dict))
 
     def with_temps(self, mark, ind, text):
         new = self.temps[mark:]
@@ -1007,6 +1087,8 @@ class Lowerer:
             while core['kind'] in ('ExprWithCleanups',): core = core['inner'][0]
             binds_temp = core['kind'] == 'MaterializeTemporaryExpr' or not self.is_lvalue(core)
             const = is_const(t.q)
+            if const and self.is_class_type(t) and not self.is_repo_class(t) and self.is_extern_call(core):
+                binds_temp = True       # the model function returns the (immutable) value, not a reference
             vt = t
             # a const reference bound to a temporary (or to a scalar) is a copy; bound to an lvalue it stays an
             # alias (pointer), so that mutations of the referenced object through other paths are seen
@@ -1035,6 +1117,14 @@ class Lowerer:
         text = ind + '%s = %s;\n' % (self.value_decl(t, name), self.e(init[0]))
         text = self.raii(v, t, name, ind, text)
         return self.with_temps_decl(mark, ind, text)
+
+    def is_extern_call(self, n):
+        while n.get('kind') in ('ImplicitCastExpr', 'ParenExpr', 'ExprWithCleanups'): n = n['inner'][0]
+        if n.get('kind') not in ('CXXMemberCallExpr', 'CXXOperatorCallExpr', 'CallExpr'): return False
+        c = n['inner'][0]
+        while c.get('kind') in ('ImplicitCastExpr', 'ParenExpr'): c = c['inner'][0]
+        mid = c.get('referencedMemberDecl') or (c.get('referencedDecl') or {}).get('id')
+        return self.ix.fn_by_id.get(mid) is None
 
     def with_temps_decl(self, mark, ind, text):
         # temporaries used by a declaration's initialiser must live in the enclosing block
@@ -1327,6 +1417,7 @@ class Lowerer:
 ENUM_MODEL_TYPES = {'QtMsgType', 'Handler_HandlerType', 'QIODevice_OpenModeFlag', 'QDir_Filter', 'QDir_SortFlag',
                     'Qt_CaseSensitivity', 'Qt_DateFormat', 'QEvent_Type', 'Qt_SplitBehaviorFlags', 'QJsonDocument_JsonFormat',
                     'QEvent_Type', 'Qt_EventPriority', 'QSettings_Format', 'QUuid_StringFormat', 'Qt_TimeSpec'}
+PURE_EXTERN_METHODS = {'toStdString', 'errorString', 'fileName', 'toUtf8', 'toLocal8Bit', 'size', 'constData', 'data', 'c_str', 'toString'}
 ITER_METHODS = {'begin', 'end', 'cbegin', 'cend', 'constBegin', 'constEnd', 'rbegin', 'rend', 'crbegin', 'crend'}
 RAII_TYPES = {'QMutexLocker', 'QMutexLocker_QMutex', 'QMutexLocker_QRecursiveMutex'}
 C_KEYWORDS = {'stdout', 'stderr', 'stdin', 'register', 'restrict', 'auto', 'default', 'signed', 'unsigned', 'inline'}
